@@ -4,7 +4,7 @@ from wa.mir import AnchorMissing, ShapeNotRecognised, callee_of, operand_alias
 from wa.expr import Exprs, show_expr, subexprs, strip_refs, data_slice, root_local
 from wa.flow import forward_states
 from wa.cond import dominating_facts, specialise
-from wa.implied import implying_edges, known_atoms
+from wa.implied import implying_edges, known_atoms, known_switch_facts, feasible_reach
 from wa import loopform
 from wa.linear import linear
 
@@ -129,14 +129,81 @@ def return_sites(b):
     return out
 
 
+def _unref(e):
+    """Expression with every ref / deref layer removed (a field read through `&self` is the field)."""
+    if not isinstance(e, tuple) or not e or not isinstance(e[0], str):
+        return e
+    if e[0] in ("ref", "deref"):
+        return _unref(e[1])
+    if e[0] in ("field", "downcast", "cast"):
+        return (e[0],) + tuple(_unref(x) if isinstance(x, tuple) else x for x in e[1:])
+    return e
+
+
+CLOCK_TYS = ("std::time::Instant", "u128")
+
+
+def _clock_fields(facts, ty):
+    """[(field index, name, ty)] of the Instant / u128 fields of a struct type (a deadline bundle)."""
+    ty = ty[5:] if ty.startswith("&mut ") else (ty[1:] if ty.startswith("&") else ty)
+    try:
+        vs = facts.adt(ty)["variants"]
+    except Exception:
+        return []
+    if len(vs) != 1:
+        return []
+    return [(i, fd["name"], fd["ty"]) for i, fd in enumerate(vs[0]["fields"]) if fd["ty"] in CLOCK_TYS]
+
+
+def clock_leaves_of(facts, e, ty):
+    """{clock type: expr} carried by a value `e` of type `ty`: the value itself for an Instant / u128,
+    the Instant / u128 fields of a struct that bundles them (`Deadline { start, time_to_move_ms }`)."""
+    if ty in CLOCK_TYS:
+        return {ty: _unref(e)}
+    out = {}
+    for i, name, fty in _clock_fields(facts, ty):
+        e0 = _unref(e)
+        if e0[0] == "named":
+            e0 = e0[2]
+        if e0[0] == "agg" and e0[1] not in ("tuple", "array", "closure") and i < len(e0[3]):
+            leaf = _unref(e0[3][i])
+        else:
+            leaf = ("field", e0, name)
+        if fty in out:
+            return {}       # two fields of the same clock type: not a (start, allowance) bundle
+        out[fty] = leaf
+    return out
+
+
+def own_clock(b):
+    """{clock type: expr}: this function's own deadline, i.e. its Instant and u128 parameters, given
+    one by one or bundled in a struct parameter.  Empty when ambiguous."""
+    out = {}
+    for p in range(1, b.arg_count + 1):
+        for ty, leaf in clock_leaves_of(b.facts, ("arg", p), b.local_ty(p)).items():
+            if ty in out:
+                return {}
+            out[ty] = leaf
+    return out
+
+
 def _own_clock_call(b, e):
     """e is `out_of_time(start, t)` on the function's own clock parameters."""
     if e[0] != "call" or e[1] != OOT or len(e[2]) != 2:
         return False
-    start = params_by_type(b, "std::time::Instant")
-    tms = params_by_type(b, "u128")
-    a = e[2]
-    return a[0][0] == "arg" and a[0][1] in start and a[1][0] == "arg" and a[1][1] in tms
+    own = own_clock(b)
+    return len(own) == 2 and _unref(e[2][0]) == own["std::time::Instant"] and _unref(e[2][1]) == own["u128"]
+
+
+def _straight_from_entry(b, bb):
+    """Block bb is reached from the entry by plain gotos only: nothing is called or decided before it."""
+    x, seen = 0, set()
+    while x != bb:
+        if x in seen or b.term(x)["k"] != "goto":
+            return False
+        seen.add(x)
+        x = b.term(x)["target"]
+    return True
 
 
 def ot_edges(b, ex, own_only=True):
@@ -215,12 +282,13 @@ def _fallback_ok(b, ex, bb):
         if src[0] == "call" and src[1].endswith("::index") and src[2][1] == ("const", 0):
             vec = root_local(src[2][0])
             if vec is not None and b.local_ty(vec) == "std::vec::Vec<board::BoardState>":
-                # I3: index 0 under the `Some` edge of the iterator over the same vector => non-empty
-                for d, vals, excl, s_, tg in dominating_facts(b, ex, bb):
+                # I3: index 0 where an iterator over the same vector has yielded an element => non-empty
+                # (the `Some` edge of its `next` dominates the send, or guarded the definition of the
+                # flag the send is under: `let all = walk(&moves); if !all { send(moves[0]) }`)
+                for d, vals, excl in known_switch_facts(b, ex, bb):
                     if d[0] == "discr" and d[1][0] == "call" and d[1][1].endswith("::next") and vals == [1]:
                         it = strip_refs(d[1][2][0])
-                        sl = data_slice(ex, it)
-                        if any(y[0] == "call" and y[1].endswith("::into_iter") and root_local(y[2][0]) == vec for y in sl):
+                        if vec in loopform.receiver_roots(b, ex, it, "std::vec::Vec<board::BoardState>"):
                             okv = True
     if not okv:
         why.append("does not send `moves[0].clone()` from inside the loop over `moves`")
@@ -229,6 +297,16 @@ def _fallback_ok(b, ex, bb):
     if any(x in after for x in abs_calls(b)):
         why.append("search continues after the fallback send")
     return (not why), "; ".join(why)
+
+
+OPT_BOARD = "std::option::Option<board::BoardState>"
+
+
+def _is_best_move_place(b, p):
+    """The place is an `Option<BoardState>` variable: a local, or the pointee of a `&mut Option<BoardState>`."""
+    if not p["proj"]:
+        return b.local_ty(p["local"]) == OPT_BOARD
+    return len(p["proj"]) == 1 and p["proj"][0]["k"] == "deref" and b.local_ty(p["local"]) == "&mut " + OPT_BOARD
 
 
 def r7_1(ctx):
@@ -250,13 +328,15 @@ def r7_1(ctx):
         if st["k"] != "assign":
             continue
         p = st["place"]
+        l = p["local"]
+        if _is_best_move_place(b, p):
+            e = ex.rvalue(st["rv"], loc)
+            if e[0] == "agg" and e[2] == "Some":
+                sites.append((loc, "best_move", "%s%s = Some(..)" % ("*" if p["proj"] else "", b.lname(l))))
+            continue
         if p["proj"]:
             continue
-        l = p["local"]
         e = ex.rvalue(st["rv"], loc)
-        if b.local_ty(l) == "std::option::Option<board::BoardState>" and e[0] == "agg" and e[2] == "Some":
-            sites.append((loc, "best_move", "%s = Some(..)" % b.lname(l)))
-            continue
         nd = len([1 for _, k in b.reaching().all_sites(l) if k == "whole"])
         if nd > 1 and l in b.names and any(x in abs_exprs for x in data_slice(ex, e)):
             sites.append((loc, "score", "%s = <value of the sub-search>" % b.lname(l)))
@@ -328,7 +408,7 @@ def r7_2(ctx):
         ex = Exprs(b)
         entry_guard = None
         for s, ft, tt, cb, own in ot_guards(b, ex):
-            if own and cb == 0 and tt is not None and entry_guard is None:
+            if own and _straight_from_entry(b, cb) and tt is not None and entry_guard is None:
                 entry_guard = (s, tt)
         if fn == ABS:
             ctx.ob("alpha_beta_search:entry-clock-test", entry_guard is not None, b.where((0, 0)),
@@ -357,18 +437,23 @@ def r7_2(ctx):
     for fn in (GBM, ABS):
         b = f.body(fn)
         ex = Exprs(b)
-        sp, tp = params_by_type(b, "std::time::Instant"), params_by_type(b, "u128")
+        own = own_clock(b)
         cb = f.body(ABS)
-        csp, ctp = params_by_type(cb, "std::time::Instant")[0] - 1, params_by_type(cb, "u128")[0] - 1
         k = 0
         for bb, t in sorted(b.iter_calls(callee=ABS)):
             k += 1
             a = ex.call_args(bb)
-            ok = sp and tp and a[csp] == ("arg", sp[0]) and a[ctp] == ("arg", tp[0])
+            given = {}
+            amb = False
+            for p in range(1, cb.arg_count + 1):
+                for ty, leaf in clock_leaves_of(f, a[p - 1], cb.local_ty(p)).items():
+                    amb = amb or ty in given
+                    given[ty] = leaf
+            ok = len(own) == 2 and not amb and given == own
             n += 1
             ctx.ob("%s:call#%d:same-deadline" % (fn.split("::")[-1], k), bool(ok), b.where(b.term_loc(bb)),
-                   "sub-search is given (%s, %s); must be this search's own (start, time allowance) so that every node and the root agree on expiry" % (
-                       show_expr(a[csp], b), show_expr(a[ctp], b)))
+                   "sub-search is given (%s); must be this search's own (start, time allowance) so that every node and the root agree on expiry" % (
+                       ", ".join(show_expr(given[ty], b) for ty in sorted(given))))
     # out_of_time is a pure comparison of a monotonic clock with its argument
     ob = f.body(OOT)
     callees = sorted({callee_of(t) for _, t in ob.iter_calls()})
@@ -506,10 +591,10 @@ def r3_2(ctx):
             if src[0] == "call" and src[1].endswith("::index"):
                 vec = root_local(src[2][0])
             elif src[0] == "field" and src[1][0] == "downcast" and src[1][1][0] == "call" and src[1][1][1].endswith("::next"):
-                it = strip_refs(src[1][1][2][0])
-                for y in data_slice(ex, it):
-                    if y[0] == "call" and y[1].endswith("::into_iter"):
-                        vec = root_local(y[2][0])
+                # the item of an iterator over the list (`for m in &moves`, over a slice of it, ..)
+                roots = loopform.receiver_roots(b, ex, src[1][1], "std::vec::Vec<board::BoardState>")
+                if len(roots) == 1:
+                    vec = next(iter(roots))
             if vec is not None and b.local_ty(vec) == "std::vec::Vec<board::BoardState>":
                 vecs.add(vec)
                 ok = True
@@ -748,7 +833,9 @@ def r12_4(ctx):
             if not inner_rec:
                 continue    # a loop over moves that does not search (ordering loops)
             n += 1
-            skip = b.reaches(item_edge[1], h, removed_nodes=inner_rec) or item_edge[1] == h
+            # (paths consistent in the constant flags they set and test: `return false` out of an
+            # inlined pass followed by `if !all_done { return }` does not continue the loop)
+            skip = h in feasible_reach(b, ex, item_edge[1], removed_nodes=inner_rec) or item_edge[1] == h
             ctx.ob("%s:loop@%d:every-move-searched" % (fn.split("::")[-1], n), not skip, b.where(b.term_loc(item_edge[0])),
                    "every move taken from the list reaches the recursive search before the next one is taken%s" % (
                        "" if not skip else ": NOT so — some moves are skipped (`continue`), so the value is no longer the minimax value over the engine's own move generation"))
@@ -785,8 +872,26 @@ def _lin_locals(e, b=None):
     return (out, le[1])
 
 
+def _is_snapshot(b, l):
+    """A local that is written exactly once, with a plain copy of another local (a parameter of an
+    inlined helper, `let a = alpha;`): it stands for that value, it is not a variable of its own."""
+    if l <= b.arg_count:
+        return False
+    sites = b.reaching().all_sites(l)
+    if len(sites) != 1 or sites[0][1] != "whole":
+        return False
+    bb, i = sites[0][0]
+    st = b.stmts(bb)
+    if i >= len(st):
+        return False
+    rv = st[i]["rv"]
+    return rv["k"] == "use" and rv["op"]["k"] in ("copy", "move") and not rv["op"]["place"]["proj"]
+
+
 def _named_i32(b):
-    return {l for l in b.names if b.local_ty(l) == "i32"}
+    """User variables of type i32 that rules keep symbolic ("the current alpha"); snapshots of other
+    locals are looked through instead."""
+    return {l for l in b.names if b.local_ty(l) == "i32" and not _is_snapshot(b, l)}
 
 
 def r12_2(ctx):
@@ -980,6 +1085,9 @@ def r12_3(ctx):
         for loc, l, e in sorted(writes):
             if l not in b.names or b.local_ty(l) != "i32":
                 continue
+            nwhole = len([1 for _, kd in b.reaching().all_sites(l) if kd == "whole"]) + (1 if l <= b.arg_count else 0)
+            if nwhole < 2:
+                continue        # the one initialisation of a variable is not a raise
             if fn == ABS and not any(b.node_dominates(c, loc[0]) and c != loc[0] for c in child):
                 continue
             y = _is_max_raise(b, e, l)
@@ -1276,7 +1384,7 @@ def r7_6(ctx):
     sends = [bb for bb, t in b.iter_calls() if (callee_of(t) or "").endswith("Sender::<T>::send")]
     n = 0
     for loc, st in b.iter_stmts():
-        if st["k"] == "assign" and not st["place"]["proj"] and b.local_ty(st["place"]["local"]) == "std::option::Option<board::BoardState>":
+        if st["k"] == "assign" and _is_best_move_place(b, st["place"]):
             e = ex.rvalue(st["rv"], loc)
             if e[0] == "agg" and e[2] == "Some":
                 n += 1
